@@ -172,7 +172,9 @@ func vPool(poolLimit, proxyLimit int64) (*ServerPool, *Server) {
 		svr.addrIsHostName = verifBool("server.addrIsHostName")
 	}
 	p := &Proxy{spec: &Spec{ServerMaxBodySize: proxyLimit}}
+	verifInitMaps(p) // maps a bypassed constructor would have made
 	sp := &ServerPool{proxy: p, spec: &ServerPoolSpec{ServerMaxBodySize: poolLimit, Servers: []*Server{svr}}, name: "pool", failureCodes: map[int]struct{}{}}
+	verifInitMaps(sp) // maps a bypassed constructor would have made
 	sp.loadBalancer.Store(NewLoadBalancer(&LoadBalanceSpec{}, sp.spec.Servers))
 	return sp, svr
 }
